@@ -367,6 +367,11 @@ fn collect_markup_repr(markup: Markup<'_>) -> MarkupRepr {
         }
     }
 
+    // A markup of nothing but block comments has no blank. Breaking it would bring one in.
+    if (markup.to_untyped().children()).all(|it| it.kind() == SyntaxKind::BlockComment) {
+        return repr;
+    }
+
     // Check boundary through comments
     if repr.start_bound == Boundary::Nil {
         if let Some(first_line) = repr.lines.first() {
